@@ -30,6 +30,7 @@ Trusted / partial: IEEE rounding and `np.sin/np.cos` (c²+s²=1 only to rounding
 is an arbitrary angle oracle (the theorems hold for every angle triple); vermouth's `make_residue_graph`
 builds the residue fragments.
 """
+import collections
 import json
 import os
 
@@ -383,7 +384,14 @@ def backmap_case(ctx, stream, replay, meta, fudge, via, np_seed, second_pass=Non
             if not ans["own"]:
                 ctx.oracle_fail("atom-name-not-in-template", "an atom name has no template entry: " + what, replay)
                 continue
-            if not ans["centre"]:
+            # the centre of geometry is the residue position when every template entry is used equally often by the
+            # residue's atoms (once each — C06_centre — or k times each); a residue that repeats only SOME atom
+            # names has its centre elsewhere by construction (counted, not judged)
+            counts = collections.Counter(n for _, n in r["atoms"])
+            balanced = set(counts) == set(meta.templates[r["template"]]) and len(set(counts.values())) == 1
+            if not balanced:
+                ctx.tally(centre_not_demanded="atom names repeated unevenly")
+            if not ans["centre"] and balanced:
                 ctx.oracle_fail("centre-off", "centre of geometry of the placed atoms differs from the residue "
                                 "position by more than 1e-6: %s; input %s" % (what, replay), replay)
             if not ans["rigid"]:
@@ -607,6 +615,39 @@ def gen_objective(ctx):
     return out
 
 
+def gen_backmap_repeated(ctx):
+    """residues in which an atom name occurs more than once (legal in GROMACS; the template is keyed by atom name, so
+    such atoms share one template entry and get the same position): every name twice, or only some names repeated.
+    Own generator: the cases of the older streams for a given VERIF_SEED stay what they were."""
+    import random
+    rng = random.Random(("repeated-names", ctx.seed, ctx.pid).__repr__())
+    out = []
+    for _ in range(ctx.budget(40, 800)):
+        seed = rng.randint(0, 10 ** 9)
+        spec = gen_molecule_spec(random.Random(seed), ctx.thorough)
+        spec.pop("second_pass", None) if rng.random() < 0.5 else None
+        for res in spec["residues"]:
+            roll = rng.random()
+            names = list(res["atom_names"])
+            if roll < 0.4:
+                extra = list(names)                      # every name twice: the centre is still the residue position
+            elif roll < 0.7:
+                extra = [rng.choice(names) for _ in range(rng.randint(1, 2))]
+            else:
+                continue
+            rng.shuffle(extra)
+            where = rng.choice(["end", "mixed"])
+            res["atom_names"] = names + extra
+            if where == "mixed":
+                # keep the atoms the bonds refer to at their indices, shuffle only the tail in
+                tail = res["atom_names"][len(names):]
+                rng.shuffle(tail)
+                res["atom_names"] = names + tail
+        out.append(dict(stream="backmap", spec=spec, np_seed=seed % 100000, repeated_names=True,
+                        probe=sorted(s for s in FINDING_SHAPES if enabled(s))))
+    return out
+
+
 def gen_pipeline(ctx):
     rng = ctx.rng
     if not os.path.exists(os.path.join(common.HERE, "c15.py")):
@@ -701,6 +742,7 @@ def run(ctx):
     replays = corpus_cases() + gen_rotate(ctx) + gen_backmap(ctx) + gen_pipeline(ctx)
     run_cases(ctx, replays)
     run_cases(ctx, gen_objective(ctx))
+    run_cases(ctx, gen_backmap_repeated(ctx))
     if ctx.failures:
         shrink(ctx)
 
